@@ -137,8 +137,17 @@ def worker_main(argv):
         if time.time() - t0 > deadline:
             cut += 1
             continue
-        rec = run_one(mod, cid, seed, i, tier, timeout)
-        out.write(json.dumps(rec, default=str) + "\n")
+        try:
+            rec = run_one(mod, cid, seed, i, tier, timeout)
+            line = json.dumps(rec, default=str)
+        except (KeyboardInterrupt, SystemExit):
+            raise
+        except BaseException:  # noqa  (a late watchdog, or an object in the record whose str() raises): never lose the worker
+            signal.alarm(0)
+            rec = {"i": i, "status": "harness_error", "detail": traceback.format_exc()[-1500:], "nontrivial": False, "feat": [], "n": 1,
+                   "key": "i%d" % i}
+            line = json.dumps(rec, default=repr)
+        out.write(line + "\n")
         out.flush()
     if hasattr(mod, "teardown_worker"):
         try:
